@@ -486,6 +486,8 @@ def classify(r):
         return dict(kind="bounds", outcome=r["out"])
     if r["lo"] > r["hi"] + 1:
         return dict(kind="bounds", outcome="inverted", src=r["src"])
+    if r.get("pure") is False:
+        return dict(kind="bounds", outcome="depends-on-earlier-calls", src=r["src"])
     return dict(kind="bounds", outcome="bracket", regime="documented", b=r["b"][0] / r["b"][1])
 
 
